@@ -147,19 +147,19 @@ impl Check for C19 {
         "exploration"
     }
     fn rule(&self) -> String {
-        "EXHAUSTIVE enumeration of 27 property kinds x {publish, will, subscribe, unsubscribe, disconnect, publish built with correlate(), reply()/reply_owned() publication with caller properties} x value variants (legal, boundary, illegal) x session states {idle, in-flight work with withheld acks, dead handle, send window used up, all eight in-flight slots used} against a reference table written from the MQTT 5.0 text (Accept / Reject / DontCare): Reject => documented error (InvalidRequest also when the request could not have been admitted anyway) and no trace (no byte of the request written, snapshot incl. the identifier counter, handle statuses, quiescence and can_publish unchanged); Accept => the request succeeds with ample buffers and the property is decoded from the wire with the same value; plus empty SUBSCRIBE/UNSUBSCRIBE lists, sets of several legal properties on one request (repeated User Properties, one of every legal kind together) in each of the five base contexts, and Maximum QoS {absent,0,1} x requested {0,1,2} x auto-downgrade {on,off} x {idle, in-flight work, dead handle, resumed reconnect after a different Maximum QoS, fresh reconnect after a different Maximum QoS}: no PUBLISH above the maximum on the wire, returned handle kind (none / completed by PUBACK / completed by PUBCOMP) matches the QoS sent. Every cell is a distinct non-trivial case.".into()
+        "EXHAUSTIVE enumeration of 27 property kinds x {publish, will, subscribe, unsubscribe, disconnect, publish built with correlate(), reply()/reply_owned() publication with caller properties} x value variants (legal, boundary, illegal) x session states {idle, in-flight work with withheld acks, handle dead after a broker DISCONNECT, send window used up, all eight in-flight slots used, handle dead after a keep-alive timeout} against a reference table written from the MQTT 5.0 text (Accept / Reject / DontCare): Reject => documented error (InvalidRequest also when the request could not have been admitted anyway) and no trace (no byte of the request written, snapshot incl. the identifier counter, handle statuses, quiescence and can_publish unchanged); Accept => the request succeeds with ample buffers and the property is decoded from the wire with the same value; plus empty SUBSCRIBE/UNSUBSCRIBE lists, sets of several legal properties on one request (repeated User Properties, one of every legal kind together) in each of the five base contexts, and Maximum QoS {absent,0,1} x requested {0,1,2} x auto-downgrade {on,off} x {idle, in-flight work, dead handle, resumed reconnect after a different Maximum QoS, fresh reconnect after a different Maximum QoS}: no PUBLISH above the maximum on the wire, returned handle kind (none / completed by PUBACK / completed by PUBCOMP) matches the QoS sent. Every cell is a distinct non-trivial case.".into()
     }
     fn assumptions(&self) -> Vec<String> {
         vec!["the reference table (requests.rs::verdict, DESIGN.md appendix A) is a correct reading of MQTT 5.0".into(), "string content rules (wildcards in a response topic, U+0000) are invalid user input and not generated".into()]
     }
     fn workloads(&self) -> Vec<Workload> {
-        vec![Workload { name: "property-cells", quick: 27 * 7 * 5, thorough: 27 * 7 * 5 }, Workload { name: "qos-cap-cells", quick: 5 * 3 * 2 * 3, thorough: 5 * 3 * 2 * 3 }, Workload { name: "empty-lists", quick: 6, thorough: 6 }, Workload { name: "legal-sets", quick: 15, thorough: 15 }]
+        vec![Workload { name: "property-cells", quick: 27 * 7 * 6, thorough: 27 * 7 * 6 }, Workload { name: "qos-cap-cells", quick: 5 * 3 * 2 * 3, thorough: 5 * 3 * 2 * 3 }, Workload { name: "empty-lists", quick: 6, thorough: 6 }, Workload { name: "legal-sets", quick: 15, thorough: 15 }]
     }
     fn min_nontrivial(&self, _tier: Tier) -> usize {
         400
     }
     fn required_counters(&self) -> Vec<&'static str> {
-        vec!["cells_accept", "cells_reject", "no_trace_comparisons", "downgrade_cells", "dead_handle_cells", "blocked_state_cells", "qos_cap_cells_after_reconnect", "reply_cells", "legal_set_cells"]
+        vec!["cells_accept", "cells_reject", "no_trace_comparisons", "downgrade_cells", "dead_handle_cells", "blocked_state_cells", "qos_cap_cells_after_reconnect", "reply_cells", "legal_set_cells", "dead_by_keepalive_timeout_cells"]
     }
     fn exhaustive(&self) -> bool {
         true
@@ -194,9 +194,10 @@ impl Check for C19 {
             0 => {
                 // 0 idle, 1 in-flight, 2 dead handle, 3 send window used up (Receive Maximum 1, one
                 // publish unacknowledged), 4 all eight in-flight slots used
-                let state = (index % 5) as u8;
-                let ctx = CTXS[((index / 5) % 7) as usize];
-                let id = ALL_PROP_IDS[(index / 35) as usize];
+                // ... 5 handle dead because a PINGREQ went unanswered
+                let state = (index % 6) as u8;
+                let ctx = CTXS[((index / 6) % 7) as usize];
+                let id = ALL_PROP_IDS[(index / 42) as usize];
                 if ctx == Ctx::Reply {
                     // the reply is encoded on an auxiliary, freshly connected session: one state only
                     if state != 0 {
@@ -256,6 +257,14 @@ impl Check for C19 {
                         cprops.push(Prop::ReceiveMaximum(1));
                     }
                     let mut steps = vec![connect_with(SpMode::Force(false), if matches!(state, 1 | 3 | 4) { AckMode::Hold } else { AckMode::Immediate }, cprops)];
+                    if state == 5 {
+                        cfg.keepalive = 1;
+                        if let Some(Step::Connect(c)) = steps.last_mut() {
+                            c.broker.ping = AckMode::Never;
+                        }
+                        steps.push(Step::Poll { max_wait: 20_000_000, cancel_at: None });
+                        steps.push(Step::Poll { max_wait: 20_000_000, cancel_at: None });
+                    }
                     if state == 1 {
                         inflight_ctx(&mut steps);
                     }
@@ -304,8 +313,11 @@ impl Check for C19 {
                         let pb = t.log.probes.iter().rev().find(|q| q.ev < op.ev_call);
                         let pa = t.log.probes.iter().find(|q| q.ev > op.ev_ret);
                         let wrote = op.out_after != op.out_before;
-                        if state == 2 {
+                        if state == 2 || state == 5 {
                             out.count("dead_handle_cells", 1);
+                            if state == 5 {
+                                out.count("dead_by_keepalive_timeout_cells", 1);
+                            }
                             let good = match (&op.outcome, ctx) {
                                 (Outcome::Ok(OkKind::Unit), Ctx::Disconnect) => true,
                                 (Outcome::Err(ErrRepr::Disconnected), _) => true,
@@ -682,7 +694,13 @@ impl Check for C20 {
             };
             ReplyMode::Owned { topic_cap: pick_cap(&mut r, tlen), corr_cap: pick_cap(&mut r, dlen) }
         };
-        let user_props = r.chance(1, 3).then(|| vec![Prop::UserProperty("rk".into(), str_of(r.below(6), &mut r)), Prop::ContentType("ct".into())]);
+        // no `.properties()` call, an empty list, one property, or several
+        let user_props = match r.below(6) {
+            0 => Some(vec![]),
+            1 => Some(vec![Prop::UserProperty("rk".into(), str_of(r.below(6), &mut r)), Prop::ContentType("ct".into())]),
+            2 => Some(vec![Prop::UserProperty("only".into(), "one".into())]),
+            _ => None,
+        };
         let plen = r.below(10);
         let payload = r.bytes(plen);
         let qos = r.below(3) as u8;
